@@ -31,7 +31,7 @@ macro_rules! core_ops5_impl {
             use super::ops::{finish_pub as finish, src_pub as src, windowed};
             #[allow(unused_imports)]
             use super::*;
-            use crate::c12::ops::Shape;
+            use crate::c12::ops::{Shape, draw};
             #[allow(unused_imports)]
             use poulpy_core::layouts::{
                 GGSW, GGSWPreparedFactory, GLWEAutomorphismKey, GLWEAutomorphismKeyPreparedFactory, GLWESwitchingKeyLayout, LWE,
@@ -279,16 +279,23 @@ macro_rules! core_ops5_impl {
                     dnum: Dnum((size_res - 1).max(1)),
                     dsize: Dsize(1),
                 };
-                let bit = (sh.seed >> 40) as usize % 8;
+                // bit of the byte: first, last, middle, anywhere
+                let bit = draw::index(sh.seed >> 40, 8);
+                // one bit, or (one draw in three, when it fits the byte) two
+                let bit_count = if (sh.seed >> 43) % 3 == 0 && bit < 7 { 2 } else { 1 };
                 let word_infos = gl(sh.n, sh.b_in, sh.k_in, rank);
                 let wenc = EncryptionLayout::new_from_default_sigma(word_infos).unwrap();
                 let mut word: FheUint<Vec<u8>, u8> = FheUint::alloc_from_infos(&word_infos);
                 word.encrypt_sk(m, (sh.seed >> 8) as u8, &sp, &wenc, &mut src(sh.seed, 5), &mut src(sh.seed, 6), big.borrow());
                 let mut res: FheUintPrepared<DeviceBuf<BE>, u8, BE> = FheUintPrepared::alloc_from_infos(m, &ggsw_infos);
                 let bit_bytes = |res: &FheUintPrepared<DeviceBuf<BE>, u8, BE>| -> Vec<u8> {
-                    let g = res.get_bit(bit);
-                    let d: &[u8] = g.data().data();
-                    d.to_vec()
+                    let mut out = Vec::new();
+                    for i in bit..bit + bit_count {
+                        let g = res.get_bit(i);
+                        let d: &[u8] = g.data().data();
+                        out.extend_from_slice(d);
+                    }
+                    out
                 };
                 if op == "fhe_uint_prepare_custom_shapes" {
                     // same entry point as the `prep` subject of fhe.rs, with layouts from the shape instead of the fixed bundle
@@ -315,7 +322,7 @@ macro_rules! core_ops5_impl {
                     // from prepared keys report k rounded up to whole limbs, so for k not a multiple of base2k the
                     // query on the bare layouts can come out smaller than what the entry assert demands)
                     let declared = m.fhe_uint_prepare_tmp_bytes(block, 1, &res, &word, &prepared);
-                    let mut r = windowed(declared, w, &mut |s| m.fhe_uint_prepare_custom(&mut res, &word, bit, 1, &prepared, s));
+                    let mut r = windowed(declared, w, &mut |s| m.fhe_uint_prepare_custom(&mut res, &word, bit, bit_count, &prepared, s));
                     // The op carves its per-thread window of exactly `fhe_uint_prepare_tmp_bytes` out of whatever it is
                     // given, so when that budget does not cover an inner step it panics with any scratch size (in a
                     // scoped thread: the message is lost). Every stage passed the set-up check, so a panic of the
@@ -338,7 +345,7 @@ macro_rules! core_ops5_impl {
                 // observe the prepared bundle through the pipeline (it sizes its own per-thread scratch from
                 // fhe_uint_prepare_tmp_bytes, the generous arena only has to hold that)
                 if r.0.is_ok() {
-                    m.fhe_uint_prepare_custom(&mut res, &word, bit, 1, &prepared, big.borrow());
+                    m.fhe_uint_prepare_custom(&mut res, &word, bit, bit_count, &prepared, big.borrow());
                 }
                 Some(finish(r, declared, vec![bit_bytes(&res)]))
             }
@@ -381,7 +388,12 @@ macro_rules! core_ops5_impl {
                 brk.encrypt_sk(m, &sp, &sk_lwe, &enc, &mut src(sh.seed, 3), &mut src(sh.seed, 4), big.borrow());
                 let mut bp: BlindRotationKeyPrepared<DeviceBuf<BE>, CGGI, BE> = BlindRotationKeyPrepared::alloc(m, &brk);
                 // (the extended LUT needs a block-binary LWE secret)
-                let ext: usize = if op == "blind_rotation_execute_via_struct" && sh.flags & 1 == 1 && sh.extra % 4 != 0 { 2 } else { 1 };
+                let ext: usize = if op == "blind_rotation_execute_via_struct" && sh.flags & 1 == 1 && sh.extra % 4 != 0 {
+                    // "a non-zero power of two"
+                    [2usize, 4, 2, 8][(sh.seed >> 38) as usize % 4]
+                } else {
+                    1
+                };
                 let res_infos = gl(sh.n, sh.b_key, sh.k_res.max(2), rank);
                 let lwe_b = 3 + sh.extra;
                 let lwe_infos = LWELayout {
@@ -391,15 +403,19 @@ macro_rules! core_ops5_impl {
                 };
                 let mut lwe: LWE<Vec<u8>> = LWE::alloc_from_infos(&lwe_infos);
                 lwe.fill_uniform(lwe_b as usize, &mut src(sh.seed, 6));
+                // table: one limb or two, 1, 2, 4 or N entries (a power of two, so that the steps tile the domain),
+                // 1..6 message bits
+                let lut_k = if (sh.seed >> 41) & 1 == 0 { sh.b_key } else { sh.b_key + 1 + (sh.seed >> 42) as u32 % sh.b_key };
                 let lut_infos = LookUpTableLayout {
                     n: Degree(sh.n),
                     extension_factor: ext,
-                    k: TorusPrecision(sh.b_key),
+                    k: TorusPrecision(lut_k),
                     base2k: Base2K(sh.b_key),
                 };
                 let mut lut: LookupTable = LookupTable::alloc(&lut_infos);
-                let f: Vec<i64> = (0..4).map(|i| 2 * i + 1).collect();
-                lut.set(m, &f, 3);
+                let f_len = [1usize, 2, 4, sh.n as usize][(sh.seed >> 46) as usize % 4];
+                let f: Vec<i64> = (0..f_len as i64).map(|i| if i % 3 == 2 { -(2 * i + 1) } else { 2 * i + 1 }).collect();
+                lut.set(m, &f, 1 + (sh.seed >> 48) as usize % (sh.b_key as usize).min(6));
                 let mut res: GLWE<Vec<u8>> = GLWE::alloc_from_infos(&res_infos);
                 if op == "blind_rotation_key_prepare_via_struct" {
                     let declared = BlindRotationKeyPrepared::<DeviceBuf<BE>, CGGI, BE>::prepare_tmp_bytes(m, &brk_infos);
@@ -437,7 +453,8 @@ macro_rules! core_ops5_impl {
                     });
                     (r, declared)
                 } else {
-                    let threads = 2 + (sh.extra as usize >> 1) % 4;
+                    // 1, 2, a count that does not divide the outputs, more threads than outputs, more than 32
+                    let threads = draw::threads(sh.seed >> 20, outputs);
                     let declared = m.execute_bdd_circuit_2w_to_1w_multi_thread_tmp_bytes::<_, u8, _, _, _, _>(
                         threads,
                         &circuit,
@@ -526,7 +543,9 @@ macro_rules! core_ops5_impl {
                         let atk_infos = atk_layout(sh, rank);
                         let keys = auto_keys(c, sh, rank, &glwe_packer_galois_elements(m), &mut big);
                         let log_n = sh.n.trailing_zeros() as usize;
-                        let log_batch = (sh.extra as usize % 3).min(log_n - 1);
+                        // "packs coefficients which are multiples of X^{N/2^log_batch}": 0..log_n - 1 (the packer keeps
+                        // log_n - log_batch accumulators and reads the first one)
+                        let log_batch = draw::index(sh.seed >> 20, log_n);
                         let count = (sh.n as usize) >> log_batch;
                         // inputs share the radix of the accumulators (glwe_sub / glwe_add assert it); their precision may differ
                         let ct_infos = gl(sh.n, sh.b_in, if sh.flags & 1 == 1 { sh.k_res } else { sh.k_in }, rank);
@@ -605,10 +624,12 @@ macro_rules! core_ops5_impl {
                 let size_in = sh.k_in.div_ceil(sh.b_in) as usize;
                 let size_res = sh.k_res.div_ceil(sh.b_res) as usize;
                 let cols = sh.rank_out as usize + 1;
-                let col = sh.extra as usize % cols;
-                let p = (sh.seed % (4 * sh.n as u64)) as i64 - 2 * sh.n as i64;
-                // 2, 4 or n/2 sub-rings
-                let parts = [2usize, 4, n / 2][(sh.extra as usize >> 1) % 3];
+                // source and destination column are chosen independently (first, last, middle; equal or not)
+                let col = draw::index(sh.seed >> 4, cols);
+                let res_col = draw::index(sh.seed >> 6, cols);
+                let p = draw::rotation(sh.seed >> 40, sh.n);
+                // 2, 4, n/4, n/2 or n sub-rings (any divisor: the sub-rings have degree n / parts >= 1)
+                let parts = [2usize, 4, n / 2, n / 4, n, 2, 4, n / 2][(sh.seed >> 12) as usize % 8];
                 let n_small = n / parts;
                 let r = match op {
                     "hal_vec_znx_merge_rings" => {
@@ -630,10 +651,10 @@ macro_rules! core_ops5_impl {
                         let declared = m.vec_znx_merge_rings_tmp_bytes();
                         let mut r = {
                             let mut res: VecZnx<&mut [u8]> = VecZnx::from_data(&mut res_buf[GUARD..GUARD + res_len], n, cols, size_res);
-                            windowed(declared, w, &mut |s| m.vec_znx_merge_rings(&mut res, col, &a, col, s))
+                            windowed(declared, w, &mut |s| m.vec_znx_merge_rings(&mut res, res_col, &a, col, s))
                         };
                         let after = res_buf[GUARD..GUARD + res_len].to_vec();
-                        r.2 &= guards_intact(&res_buf) && other_cols_same(&before, &after, n, cols, size_res, col);
+                        r.2 &= guards_intact(&res_buf) && other_cols_same(&before, &after, n, cols, size_res, res_col);
                         finish(r, declared, vec![after])
                     }
                     "hal_vec_znx_split_ring" => {
@@ -657,11 +678,11 @@ macro_rules! core_ops5_impl {
                                 .iter_mut()
                                 .map(|buf| VecZnx::from_data(&mut buf[GUARD..GUARD + res_len], n_small, cols, size_res))
                                 .collect();
-                            windowed(declared, w, &mut |s| m.vec_znx_split_ring(&mut res, col, &a, col, s))
+                            windowed(declared, w, &mut |s| m.vec_znx_split_ring(&mut res, res_col, &a, col, s))
                         };
                         let after: Vec<Vec<u8>> = res_bufs.iter().map(|buf| buf[GUARD..GUARD + res_len].to_vec()).collect();
                         r.2 &= res_bufs.iter().all(|buf| guards_intact(buf))
-                            && before.iter().zip(after.iter()).all(|(x, y)| other_cols_same(x, y, n_small, cols, size_res, col));
+                            && before.iter().zip(after.iter()).all(|(x, y)| other_cols_same(x, y, n_small, cols, size_res, res_col));
                         finish(r, declared, after)
                     }
                     "hal_vec_znx_rotate_assign" | "hal_vec_znx_mul_xp_minus_one_assign" => {
